@@ -43,6 +43,9 @@ type routerCell struct {
 	r    *router.Router
 }
 
+// setFiles are the domain-set / prefix-set files written once per process for router configs.
+var setFiles struct{ ds, gob, ps string }
+
 var (
 	cellsOnce sync.Once
 	cells     []routerCell
@@ -134,6 +137,7 @@ func buildCells() {
 		return
 	}
 	gf.Close()
+	setFiles.ds, setFiles.gob, setFiles.ps = dsPath, gobPath, psPath
 
 	var singles20 []uint16
 	for i := 1; i <= 20; i++ {
